@@ -198,7 +198,7 @@ Definition step (q : cquirks) (explicit : bool) (f : option cfg) (c : cmd) : obs
     | CSet k t =>
       let v := convert t in
       let conf' := upd (ckey_set q k) v conf in
-      if valid conf' then Build_obs 0 (Some (set_msg_prefix ++ k ++ set_msg_mid ++ show v)%string) (Some conf')
+      if valid conf' then Build_obs 0 (Some (set_msg_prefix ++ ckey_set q k ++ set_msg_mid ++ show v)%string) (Some conf')
       else Build_obs set_reject_exit None f
     | CGet k =>
       match lookup (ckey_get q k) conf with
